@@ -79,6 +79,17 @@ fn decode(word: i32) -> ExitStatus {
     }
 }
 
+/// The duration an `HOp::WaitTimeout` stands for: nanoseconds, except that
+/// u64::MAX is `Duration::MAX` (the "wait without limit" idiom; no u64
+/// nanosecond count comes near the range of the clock).
+pub fn wt_duration(d: u64) -> Duration {
+    if d == u64::MAX {
+        Duration::MAX
+    } else {
+        Duration::from_nanos(d)
+    }
+}
+
 pub fn run_proc(case: &ProcCase) -> ProcOutcome {
     let pid = ip::FAKE_PID_NEXT.load(SeqCst);
     let mut sim = Box::new(SimProc::new(pid, case.plan.clone()));
@@ -113,6 +124,9 @@ pub fn run_proc(case: &ProcCase) -> ProcOutcome {
             sim.agg = Agg::default();
             sim.op_log_start = sim.log.len();
             sim.budget = match &op {
+                // an unbounded wait (u64::MAX stands for Duration::MAX) may legitimately
+                // keep checking until the child ends
+                HOp::WaitTimeout(d) if *d == u64::MAX => 256 + 4 * ((sim.exit_at.unwrap_or(sim.now) - sim.now).max(0) as u64 / 100_000_000),
                 HOp::WaitTimeout(d) => 256 + 4 * (*d / 100_000_000),
                 _ => 2000,
             };
@@ -129,7 +143,8 @@ pub fn run_proc(case: &ProcCase) -> ProcOutcome {
                         OpResult::Skipped("child never exits")
                     }
                 }
-                HOp::WaitTimeout(d) => OpResult::Status(p.wait_timeout(Duration::from_nanos(*d)).map_err(|e| e.to_string())),
+                HOp::WaitTimeout(d) if *d == u64::MAX && !(mortal || p.exit_status().is_some()) => OpResult::Skipped("child never exits"),
+                HOp::WaitTimeout(d) => OpResult::Status(p.wait_timeout(wt_duration(*d)).map_err(|e| e.to_string())),
                 HOp::Pid => OpResult::Pid(p.pid()),
                 HOp::ExitStatus => OpResult::Status(Ok(p.exit_status())),
                 HOp::Terminate => OpResult::Unit(p.terminate().map_err(|e| e.to_string())),
@@ -371,7 +386,7 @@ pub fn judge(focus: Focus, case: &ProcCase, o: &ProcOutcome, rep: &mut CaseRepor
                             }
                         }
                         HOp::WaitTimeout(d) => {
-                            let d = *d as i64;
+                            let d = (*d).min(i64::MAX as u64) as i64;
                             let cost = case.plan.cost_ns as i64;
                             let slack = 1_000_000 + 40 * cost;
                             if known_before.is_some() {
@@ -421,11 +436,11 @@ pub fn judge(focus: Focus, case: &ProcCase, o: &ProcOutcome, rep: &mut CaseRepor
                                     return fail("oversleep", format!("op #{}: a sleep extends {} ns beyond the deadline", i, r.agg.max_sleep_end - dl));
                                 }
                                 // classification
-                                let dclass = if d == 0 { "0" } else if d < 1_000_000 { "sub-ms" } else if d < 1_000_000_000 { "ms" } else if d <= 3_600_000_000_000 { "s-h" } else { "days" };
+                                let dclass = if d == i64::MAX { "unbounded" } else if d == 0 { "0" } else if d < 1_000_000 { "sub-ms" } else if d < 1_000_000_000 { "ms" } else if d <= 3_600_000_000_000 { "s-h" } else { "days" };
                                 let place = match x {
                                     None => "never".to_string(),
                                     Some(x) if x <= t0 => "before-call".to_string(),
-                                    Some(x) if x > dl + 1000 => "after-deadline".to_string(),
+                                    Some(x) if x > dl.saturating_add(1000) => "after-deadline".to_string(),
                                     Some(x) if (x - dl).abs() <= 1000 => "at-deadline".to_string(),
                                     Some(x) => {
                                         let ms = (x - t0) / 1_000_000;
@@ -570,6 +585,8 @@ fn dur_strategy(thorough: bool) -> BoxedStrategy<u64> {
         4 => 1_000_000u64..999_000_000,
         2 => 1_000_000_000u64..30_000_000_000,
         1 => 30_000_000_000u64..3_600_000_000_000,
+        // Duration::MAX: "wait however long it takes"
+        1 => Just(u64::MAX),
     ];
     if thorough {
         // a never-exiting child with a 25-day wait is 21.6 M loop iterations: keep such cases rare
@@ -624,6 +641,12 @@ pub fn case_strategy(focus: Focus, thorough: bool) -> BoxedStrategy<ProcCase> {
         // targeted: (duration, exit placement)
         let targeted = (dur_strategy(thorough), 0u8..7, 0u32..9, 0u64..1_000_000, prop_oneof![Just(0u64), 1u64..50_000_000], plan_strategy()).prop_map(|(d, place, k, j, adv, mut plan)| {
             let exit = match place {
+                // an unbounded wait: the exit is the only thing that ends it
+                0 | 5 if d == u64::MAX => Some(adv + k as u64 * 100_000_000 + j),
+                1 if d == u64::MAX => Some(adv / 2),
+                2 | 3 if d == u64::MAX => Some(adv + (1u64 << k) * 1_000_000 + j % 1000),
+                4 if d == u64::MAX => Some(adv + j * 4_000_000),
+                _ if d == u64::MAX => Some(adv + j * 977),
                 0 => None,
                 1 => Some(adv / 2),                                             // before the call
                 2 => Some(adv + ((1u64 << k) * 1_000_000).min(d.saturating_sub(1)) + j % 1000), // inside a back-off interval
@@ -823,7 +846,7 @@ pub static C10: PropDef = PropDef {
 pub static C11: PropDef = PropDef {
     id: "C11",
     level: "exploration",
-    rule: "durations d from {0, sub-ms, ms, s, up to 1 h; thorough: 1 day, 25 days +- 1 s} crossed with exit instants placed before the call, inside each back-off interval, within 1 us of the deadline on either side, after it, never; plus general histories. Virtual clock, exact: poll() makes at most one non-blocking waitpid and never sleeps; wait_timeout with known status makes no system call; 'still running' is returned within [T0+d, T0+d+1ms+costs]; a status is returned no later than min(exit, deadline)+100ms+slack; an exit more than 100 ms old is never missed; at most 14 + d/100ms checks, each pair separated by a positive sleep, no sleep beyond the deadline. Non-trivial = the exit falls inside the waiting window or d > 100 ms.",
+    rule: "durations d from {0, sub-ms, ms, s, up to 1 h, Duration::MAX (an unbounded wait, generated only for children that do exit); thorough: 1 day, 25 days +- 1 s} crossed with exit instants placed before the call, inside each back-off interval, within 1 us of the deadline on either side, after it, never; plus general histories. Virtual clock, exact: poll() makes at most one non-blocking waitpid and never sleeps; wait_timeout with known status makes no system call; 'still running' is returned within [T0+d, T0+d+1ms+costs]; a status is returned no later than min(exit, deadline)+100ms+slack; an exit more than 100 ms old is never missed; at most 14 + d/100ms checks, each pair separated by a positive sleep, no sleep beyond the deadline. Non-trivial = the exit falls inside the waiting window or d > 100 ms.",
     assumptions: ASSUME,
     engines: "simproc",
     workers: |_| 16,
